@@ -13,4 +13,7 @@ SchemaJson == [order |-> UniverseOrder, types |-> Universe,
 ASSUME PrintT(<<"SCHEMA", ToJson(SchemaJson)>>)
 
 Emit == Complete => PrintT(<<"DOC", ToJson(doc)>>)
+
+\* with Extended = TRUE: the documents of the wider class only (tag XDOC)
+EmitExt == (Done /\ MaybeRefused(doc)) => PrintT(<<"XDOC", ToJson(doc)>>)
 =============================================================================
